@@ -698,6 +698,10 @@ class Walker:
                 isinstance(e.slice.operand, ast.Constant) and isinstance(e.slice.operand.value, int):
             idx = -e.slice.operand.value
         out = set()
+        if isinstance(e.ctx, ast.Load):
+            dd = [i for i in self._heap(base) if isinstance(i, tuple) and i[0] == "alloc" and str(i[-1]).endswith(":defaultdict")]
+            if dd:
+                self.record(e, "store-sub", dd, detail="%s (defaultdict: looking up a missing key inserts it)" % unparse(e))
         for i in base:
             o = self.pt.objs.get(i) if isinstance(i, tuple) else None
             if o is not None and o.kind == "tuple" and idx is not None and o.fields.get("#n") and \
@@ -1018,6 +1022,19 @@ class Walker:
             for v in kw.values():
                 c |= v
             return fresh("dict", c, copy_of=self._heap(a0))
+        if short in ("collections.defaultdict",):
+            # a dict whose __getitem__ inserts a missing key: a subscript *load* on it is a write (see e_Subscript)
+            c = {IMM}
+            for v in a[1:]:
+                c |= pt.contents(v)
+                c |= pt.contents(pt.contents(v))
+            for v in kw.values():
+                c |= v
+            o = pt.alloc(self.scope, e, "dict", tag=":defaultdict")
+            pt.add(o.contents, c)
+            if len(a) > 1:
+                pt.add(o.copy_of, {i for i in self._heap(a[1]) if isinstance(i, tuple)})
+            return {o.id}
         if short in ("range",):
             return fresh("iter", {IMM})
         if short in ("enumerate", "reversed", "iter", "zip", "filter", "itertools.filterfalse",
